@@ -217,11 +217,13 @@ M('run-exitmsg-after-fini', ['C08'], F, """                        if prop_exit 
 M('flags-all-1', ['C08'], F, "PROP_EXIT_FLAGS  = {'all': 3, 'clean': 1, 'error': 2, 'none': 0}", "PROP_EXIT_FLAGS  = {'all': 1, 'clean': 1, 'error': 2, 'none': 0}", ['C08.R2', 'C08.R1'])
 M('on-exit-wrong-bit', ['C08'], F, "                if self.obey_exit & PROP_EXIT_FLAGS['error']:", "                if self.obey_exit & PROP_EXIT_FLAGS['clean']:", ['C08.R2'])
 M('on-exit-error-clean-exit', ['C08'], F, "self.exit('another filter errored', Filter.PropagateError)", "self.exit('another filter errored')", ['C08.R2'])
-M('exit-raise-conditional', ['C08'], F, """            logger.info(f'{reason}, exiting...' if reason else 'exiting...')
+M('exit-raise-conditional', ['C08'], F, """        self.exit_exc = exc = exc or Filter.Exit  # what run() must not take for an error of the loop that LOOP_EXC off tells it to log and carry on from
 
-        raise exc or Filter.Exit""", """            logger.info(f'{reason}, exiting...' if reason else 'exiting...')
+        raise exc
+""", """            self.exit_exc = exc = exc or Filter.Exit  # what run() must not take for an error of the loop that LOOP_EXC off tells it to log and carry on from
 
-            raise exc or Filter.Exit""", ['C08.R3'])
+            raise exc
+""", ['C08.R3'])
 M('exit-no-stop-evt', ['C08'], F, "        if not self.stop_evt.is_set():  # because we don't want to potentially log multiple exits\n            self.stop_evt.set()", "        if not self.stop_evt.is_set():  # because we don't want to potentially log multiple exits\n            pass", ['C08.R3'])
 M('loop-once-no-poll-send', ['C08'], F, """        while not self.mq.send(frames, min(POLL_TIMEOUT_MS, outputs_timeout)):
             if self.stop_evt.is_set():
@@ -842,8 +844,12 @@ M('seed13-C15-timeout-line-keeps-the-raw-bind-address', ['C15'], Z, """@ {hide_u
 M('seed13-C16-shape-allow-list-cached-per-process', ['C16'], CF, "def read_allowlist() -> Set[str]:", "@__import__('functools').cache\ndef read_allowlist() -> Set[str]:", ['C16.R14'])
 M('seed13-C03-shape-missing-target-keeps-the-source-name', ['C03'], F, "topics = [tuple([t.strip() or default_topic for t in s.strip().split('>')] * 2)[:2] for s in topics]", "topics = [((p := [t.strip() for t in s.split('>')])[0] or default_topic, (p[1] if len(p) > 1 and p[1] else p[0] or default_topic)) for s in topics]", ['C03.R20'])
 M('d99-ipc-file-recognised-by-inode-number-alone', ['C06'], Z, "if ((st := os.stat(fnm)).st_ino, st.st_ctime_ns) == self.ipc_inodes.get(fnm):", "if (os.stat(fnm).st_ino, self.ipc_inodes.get(fnm, (0, 0))[1]) == self.ipc_inodes.get(fnm):", ['C06.R17'])
-M('d98-metrics-output-port-not-reserved', ['C12'], CLI, '        if isinstance(outputs_metrics := config.get("outputs_metrics"), str) and (m := RE_URL_PORT.match(outputs_metrics)):  # the dedicated metrics output binds its own pair of ports\n            max_port = max(max_port, int(m.group(1)))\n', '', ['C12.R13'])
 M('sweep13-end-position-not-taken-after-the-search', ['C13'], RL, "                    at = start\n\n                read_file.seek(at)\n", "                    at = start\n\n                pass\n", ['C13.R16'])
 M('sweep13-end-search-goes-on-past-a-found-delimiter', ['C13'], RL, "                        at = start + cut\n\n                        break\n", "                        at = start + cut\n", ['C13.R16'])
 M('sweep13-end-position-before-the-delimiter', ['C13'], RL, "if (cut := read_file.read(at - start).rfind(b'\\n') + 1):", "if (cut := read_file.read(at - start).rfind(b'\\n') - 1):", ['C13.R16'])
 M('sweep13-tell-inside-the-list-answers-nothing', ['C14'], RL, "            return (os.path.basename(logfiles[read_idx].path), 0 if read_file is None else\n                read_file.tell() if file_pos else None)\n", "            pass\n", ['C14.R6'])
+M('seed14-C08-exit-announcements-handed-on-once', ['C08'], MQ, "        on_exit_msg_       = (lambda m: None) if on_exit_msg is None else (lambda m: on_exit_msg(m[0]))\n", "        self.exit_msg_seen = False\n\n        def on_exit_msg_(m):\n            if on_exit_msg is not None and not self.exit_msg_seen:\n                self.exit_msg_seen = True\n\n                on_exit_msg(m[0])\n\n", ['C08.R7'])
+M('seed14-C12-port-pattern-misses-unusual-credentials', ['C12'], CLI, 'RE_URL_PORT = re.compile(r"[a-zA-Z][a-zA-Z0-9+.\\-]*://[^/?#;!]*:(\\d+)")', 'RE_URL_PORT = re.compile(r"[a-zA-Z][a-zA-Z0-9+.\\-]*://(?:\\w+(?::\\w+)?@)?[^/?#;!:]*:(\\d+)")', ['C12.R16'])
+M('d100-portless-tcp-metrics-output-not-reserved', ['C12'], CLI, '            if outputs_metrics.startswith("tcp://"):  # (the protocol\'s default port when none is written, like any tcp output)\n                max_port = max(max_port, int((only_mq_addr(outputs_metrics[6:]).rsplit(":", 1) + [5550])[:2][1]))\n            elif outputs_metrics.startswith("ipc://"):', '            if outputs_metrics.startswith("ipc://"):', ['C12.R13'])
+M('d100-ipc-metrics-output-not-counted', ['C12'], CLI, '                ipc_outputs.add(only_mq_addr(outputs_metrics))\n', '                pass\n', ['C12.R13'])
+M('d101-exit-exception-logged-away-with-loop-exc-off', ['C08'], F, "                                    if (exit_exc := getattr(filter, 'exit_exc', None)) is not None and (exc is exit_exc or type(exc) is exit_exc):  # raised by exit(reason, exc): a deliberate error exit, also with LOOP_EXC off\n                                        raise\n\n", "", ['C08.R14'])
